@@ -8,6 +8,7 @@ import (
 	"github.com/deadsy/sdfx/obj"
 	"github.com/deadsy/sdfx/sdf"
 	v2 "github.com/deadsy/sdfx/vec/v2"
+	"github.com/deadsy/sdfx/vec/v2i"
 	v3 "github.com/deadsy/sdfx/vec/v3"
 	"github.com/deadsy/sdfx/vec/v3i"
 	"math"
@@ -140,6 +141,39 @@ func init() {
 				ls = append(ls, &sdf.Line2{vs[i], vs[(i+1)%len(vs)]})
 			}
 			return must2(sdf.Mesh2D(ls))
+		}})
+	// densely overlapping copies: the step is a fraction of the child's bounding box, so
+	// that many cells are candidates for the nearest one at every point
+	register(catEntry{Name: "x-array3d-dense", Ctors: []string{"sdf.Array3D"},
+		Build3: func(lw *leafWrapper) sdf.SDF3 {
+			bar := sdf.Transform3D(must3(sdf.Box3D(v3.Vec{X: 4, Y: 0.5, Z: 0.5}, 0.05)), sdf.RotateZ(sdf.DtoR(45)))
+			return sdf.Array3D(lw.w3(bar), v3i.Vec{X: 14, Y: 2, Z: 1}, v3.Vec{X: 0.4, Y: 1.1, Z: 1})
+		}})
+	register(catEntry{Name: "x-array2d-dense", Ctors: []string{"sdf.Array2D"},
+		Build2: func(lw *leafWrapper) sdf.SDF2 {
+			bar := sdf.Transform2D(sdf.Box2D(v2.Vec{X: 4, Y: 0.5}, 0.05), sdf.Rotate2d(sdf.DtoR(45)))
+			return sdf.Array2D(lw.w2(bar), v2i.Vec{X: 14, Y: 2}, v2.Vec{X: 0.4, Y: 1.1})
+		}})
+	register(catEntry{Name: "x-rotate-union3d-dense", Ctors: []string{"sdf.RotateUnion3D"},
+		Build3: func(lw *leafWrapper) sdf.SDF3 {
+			bar := sdf.Transform3D(must3(sdf.Box3D(v3.Vec{X: 4, Y: 0.5, Z: 0.5}, 0.05)), sdf.Translate3d(v3.Vec{X: 2.5, Y: 0, Z: 0}))
+			return sdf.RotateUnion3D(lw.w3(bar), 40, sdf.RotateZ(sdf.DtoR(9)))
+		}})
+	register(catEntry{Name: "x-multi3d-dense", Ctors: []string{"sdf.Multi3D"},
+		Build3: func(lw *leafWrapper) sdf.SDF3 {
+			var pos v3.VecSet
+			for i := 0; i < 30; i++ {
+				pos = append(pos, v3.Vec{X: float64(i%10) * 0.35, Y: float64(i/10) * 0.4, Z: 0})
+			}
+			return sdf.Multi3D(lw.w3(must3(sdf.Box3D(v3.Vec{X: 3, Y: 0.4, Z: 0.4}, 0.05))), pos)
+		}})
+	// a space-filling model (infill): the surface passes through nearly every cell of a
+	// coarse grid, so tree-walking renderers cannot prune anything
+	register(catEntry{Name: "x-gyroid-infill", Ctors: []string{"sdf.Gyroid3D", "sdf.Intersect3D"},
+		Build3: func(lw *leafWrapper) sdf.SDF3 {
+			g := lw.w3(must3(sdf.Gyroid3D(v3.Vec{X: 10, Y: 10, Z: 10})))
+			b := lw.w3(must3(sdf.Box3D(v3.Vec{X: 100, Y: 100, Z: 100}, 0)))
+			return sdf.Intersect3D(b, g)
 		}})
 	register(catEntry{Name: "x-polygon2d-collinear", Ctors: []string{"sdf.Polygon2D"},
 		Build2: func(lw *leafWrapper) sdf.SDF2 {
